@@ -1,6 +1,7 @@
 package main
 
 import (
+	"strings"
 	"go/token"
 	"go/types"
 
@@ -42,7 +43,7 @@ func (w *World) directOffers(fn *ssa.Function) []offer {
 			o := offer{Fn: fn, SelFn: fn, Sel: sel, State: i, Class: st.Class}
 			if mc, ok := st.Send.(*ssa.MakeClosure); ok {
 				o.MC = mc
-				o.Closure = mc.Fn.(*ssa.Function)
+				o.Closure = boundTarget(mc.Fn.(*ssa.Function))
 			}
 			out = append(out, o)
 		}
@@ -80,7 +81,7 @@ func (w *World) offersIn(fn *ssa.Function) []offer {
 					d := offer{Fn: fn, SelFn: h, Via: call, Sel: o.Sel, State: o.State, Class: o.Class}
 					if mc, ok := call.Call.Args[i].(*ssa.MakeClosure); ok {
 						d.MC = mc
-						d.Closure = mc.Fn.(*ssa.Function)
+						d.Closure = boundTarget(mc.Fn.(*ssa.Function))
 					}
 					out = append(out, d)
 				}
@@ -210,4 +211,22 @@ func (p *Path) armTakenIn(sel *ssa.Select, f *Frame) int {
 		}
 	}
 	return q.armTaken(sel)
+}
+
+
+// boundTarget: for the synthetic wrapper of a method value (x.m) the method itself; any other function unchanged.
+func boundTarget(fn *ssa.Function) *ssa.Function {
+	if fn == nil || !strings.HasPrefix(fn.Synthetic, "bound method wrapper") {
+		return fn
+	}
+	for _, b := range fn.Blocks {
+		for _, in := range b.Instrs {
+			if c, ok := in.(*ssa.Call); ok {
+				if sc := c.Call.StaticCallee(); sc != nil && sc.Blocks != nil {
+					return sc
+				}
+			}
+		}
+	}
+	return fn
 }
